@@ -611,6 +611,12 @@ func execPair(pc *pairCase, st *Stats, verdict func(*c07Case, [3]policyRun, *Sta
 		}
 		s := RunScheduled(pc.tape, pc.Strategy, procs, bodies)
 		st.Add("fired.context_switches", int64(s.Switches))
+		if s.Switches >= 2 {
+			st.InSet("schedules_with_2plus_switches (hash of the grant sequence: process, site)", s.Hash())
+		}
+		if s.Switches >= 2 {
+			st.InSet("schedules_with_2plus_switches (hash of the grant sequence: process, site)", s.Hash())
+		}
 		st.Count("strategy." + stratNames[s.Strategy])
 		if s.Deadlock {
 			return &Violation{Clause: "concurrent-run-finishes", Detail: "two applications run together did not both finish", Observed: s.DescribeGrants(60)}
